@@ -103,12 +103,15 @@ static inline NPair *NMapIt_arrow(NMapIt *it)
 { __CPROVER_assert(it->idx < it->m->n, "map<IndexCombination4, shared_ptr<TwoParticleGF>>::iterator dereferenced before end()"); return &it->m->cur; }
 static inline struct TwoParticleGF *GF2Ptr_mul(GF2Ptr *s) { return s->p; }
 static inline unsigned long PartVec_size(PartVec *v) { return v->n; }
-static inline struct TwoParticleGFPart **PartVec_at(PartVec *v, unsigned long p)
+static inline struct TwoParticleGFPart **PartVec_at_fn(unsigned long n, int of_ghost_element, unsigned long p)
 {
-  __CPROVER_assert(p < v->n, "vector<TwoParticleGFPart*>::operator[]: index < size()");
-  g_cur_ghost_part = (v == &g_gel.parts && p == g_gq) ? 1 : 0;
+  __CPROVER_assert(p < n, "vector<TwoParticleGFPart*>::operator[]: index < size()");
+  g_cur_ghost_part = (of_ghost_element && p == g_gq) ? 1 : 0;
   return &g_part_p;
 }
+/* (a macro: the size is read at the call site, not through a pointer parameter -- CBMC 6.11 lost the value of parts.n behind the
+ * pointer after the loop instrumentation had havocked the neighbouring member Status) */
+#define PartVec_at(v_, p_) PartVec_at_fn((v_)->n, (v_) == &g_gel.parts, (p_))
 /* ---- the tables: std::map<IndexCombination4, std::vector<ComplexType>>, ghost key g_X; a vector = its identity */
 typedef struct FreqVec { long id; } FreqVec;
 typedef struct CVecOut { unsigned long id; } CVecOut;
@@ -213,7 +216,7 @@ __CPROVER_decreases(NTE->n - iter.idx)
 //@loop 5
 __CPROVER_assigns(iter.idx, comp, self->NonTrivialElements.cur, storage, out, elem_colors.scratch, color_roots, g_gel.Status, g_oel, g_cur_ghost_part, g_nr_bcasts, g_r_bcasts,
                   g_sender, g_have_sender, g_fd_bcasts, g_cur_elem)
-__CPROVER_loop_invariant(iter.m == NTE && iter.idx <= NTE->n && comp >= 0 && (unsigned long)comp == iter.idx && color_roots.gkey == g_ecol)
+__CPROVER_loop_invariant(iter.m == NTE && iter.idx <= NTE->n && comp >= 0 && (unsigned long)comp == iter.idx && color_roots.gkey == g_ecol && g_oel.parts.n <= NMAX && g_cur_elem == iter.idx)
 __CPROVER_loop_invariant(iter.idx < NTE->n ==> (iter.idx == g_g ? (KEQ(NTE->cur.first, g_X) && NTE->cur.second.p == &g_gel) : (!KEQ(NTE->cur.first, g_X) && NTE->cur.second.p == &g_oel)))
 __CPROVER_loop_invariant((color_roots.gpresent == 0 || color_roots.gpresent == 1) && (color_roots.gpresent ==> (0 <= color_roots.gval && color_roots.gval < comm->size_)))
 __CPROVER_loop_invariant(iter.idx > g_g ? DONE_PARTS(g_gel.parts.n) : DONE_PARTS(0UL))
@@ -235,7 +238,7 @@ __CPROVER_loop_invariant(chi != &g_gel ==> (out.gpresent == __CPROVER_loop_entry
 __CPROVER_loop_invariant(g_calc ? (storage.gpresent == 1 && storage.g.id == g_gres) : ((iter.idx < g_g || (iter.idx == g_g && p == 0)) ==> storage.gpresent == 0))
 __CPROVER_decreases(chi->parts.n - p)
 //@end
-//@harness h_TPGFC_computeAll_split enforce=TPGFC_computeAll_split props=C13 reach=5 timeout=400
+//@harness h_TPGFC_computeAll_split enforce=TPGFC_computeAll_split props=C13 reach=5 timeout=1400
 void h_TPGFC_computeAll_split(void)
 {
   struct TwoParticleGFContainer *c; _Bool clear; FreqVec *f; Comm *m;
